@@ -3,6 +3,7 @@
 //! canonical line per case / operation.  The same cases are evaluated by the Coq model; the
 //! driver diffs the two outputs.
 
+mod client;
 mod conn;
 mod resp;
 mod sched;
@@ -20,6 +21,7 @@ fn main() {
     let code = match args[1].as_str() {
         "resp" => resp::main(rest),
         "conn" => conn::main(rest),
+        "client" => client::main(rest),
         "store" => store::main(rest),
         "recover" => store::recover_main(rest),
         "server" => server::main(rest),
